@@ -371,7 +371,7 @@ func (rs *runState) runShard(variant string, shard, nshards int) {
 		rs.mu.Unlock()
 		if inconclusive {
 			rs.mu.Lock()
-			rs.inconcl = append(rs.inconcl, fmt.Sprintf("watchdog stopped %s shard %d at case %d (%s): not a deadlock state, verdict inconclusive", variant, shard, cur, site))
+			rs.inconcl = append(rs.inconcl, fmt.Sprintf("%s: %s shard %d stopped at case %d (%s): not a deadlock state and no crash report, verdict inconclusive for that case", kind, variant, shard, cur, site))
 			rs.mu.Unlock()
 		} else {
 			key := "death/" + kind + "/" + site
@@ -526,6 +526,11 @@ func classifyDeath(code int, log []byte) (kind, site string, inconclusive bool) 
 		return "panic", site, false
 	case code == 124 || code == 137:
 		return "watchdog", site, true
+	case code == -1 && len(strings.TrimSpace(s)) == 0:
+		// killed by a signal it did not raise itself and without a word from the Go runtime (which
+		// reports every crash, panic and fatal error): an external SIGKILL, e.g. the kernel's
+		// out-of-memory killer on a loaded machine.  Not attributable to the library.
+		return "killed-externally", site, true
 	}
 	return "unknown-exit-" + strconv.Itoa(code), site, false
 }
